@@ -163,6 +163,10 @@ V("c14-zero-test-of-dimensionful-mean", "C14", {"rule": "C14", "contains": "_is_
   (GSTATE, "        return not self._connector.np.allclose(self._m, 0.0)", "        return not self._connector.np.allclose(self.xpxp_mean_vector, 0.0)"))
 V("c14-zero-test-of-complex-displacement-local", "C14", "silent",
   (GSTATE, "        return not self._connector.np.allclose(self._m, 0.0)", "        first_moment = self._m\n        return not self._connector.np.allclose(first_moment, 0.0)"))
+V("c11h-identity-of-moments-as-cache-key", "C11", {"rule": "C11h", "contains": "identity of in-place"},
+  (GSTATE, "    def _is_displaced(self) -> bool:", "    def _cached_calculation_is_current(self, cached_moments) -> bool:\n        return all(cached is current for cached, current in zip(cached_moments, (self._m, self._G, self._C)))\n\n    def _is_displaced(self) -> bool:"))
+V("c11h-type-identity-is-not-a-cache-key", "C11", "silent",
+  (GSTATE, "    def _is_displaced(self) -> bool:", "    def _same_kind(self, other) -> bool:\n        return type(self) is type(other) and self._m is not None\n\n    def _is_displaced(self) -> bool:"))
 # ------------------------------------------------------------------------------------------- C20
 V("c20-sub-add", "C20", {"rule": "C20c", "contains": "Sub"}, (EXPR, "ast.Sub: op.sub", "ast.Sub: op.add"))
 V("c20-lt-le", "C20", {"rule": "C20c", "contains": "Lt"}, (EXPR, "ast.Lt: op.lt", "ast.Lt: op.le"))
